@@ -5,7 +5,8 @@
         title ("" = none), legend (0/1), labels ;  scene: colls = [[[x, y]]] per scatter collection (in order), lines = [[x0,y0,x1,y1,label]],
         xlim, ylim (1/q ticks, floor/ceil of the float limits: lo rounded down, hi rounded up), xlabel, ylabel, stitle, haslegend, legtexts
    kind "matching": S, T = [[b, d]] finite ; rows = [[i, j]] of the matching (0-based, -1 = diagonal) ; maxrow (0-based index of the arg-max row,
-        -1 if none is to be highlighted) ; onax = [[x0,y0,x1,y1,style]] 2-point lines drawn on the axes that was passed (style = identifier of the (width, dash, colour) class),
+        -1 if none is to be highlighted)
+   kind "landscape": content = the landscape object's own function per depth [[x, y]] (1/q ticks), depthsel (0-based, [] = all), obslines = the lines drawn ; onax = [[x0,y0,x1,y1,style]] 2-point lines drawn on the axes that was passed (style = identifier of the (width, dash, colour) class),
         onother = number of lines drawn on any other axes                                                                        *)
 EXTENDS Integers, Sequences, FiniteSets, TLC, FiniteSetsExt, SequencesExt, Json, IOUtils, TLCExt
 Cases == JsonDeserialize(IOEnv.TRACE_FILE)
@@ -65,7 +66,17 @@ MatchingVerdict(c) ==
                /\ \A m \in 1..Len(obs) : ~SegEq(obs[m], Seg(c, c.rows[c.maxrow + 1])) => c.onax[m][5] # c.onax[n][5])
           THEN <<"fail", "bottleneck-pair-not-marked-distinctly", 0>>
      ELSE <<"ok", "", 0>>
-Verdict(c) == IF c.kind = "diagrams" THEN DiagramsVerdict(c) ELSE MatchingVerdict(c)
+\* 2-D landscape plots: one line per plotted depth, through the landscape's own critical points / sampled values, on the axes passed
+LandscapeVerdict(c) ==
+  LET sel == IF Len(c.depthsel) = 0 THEN [i \in 1..Len(c.content) |-> i] ELSE [i \in 1..Len(c.depthsel) |-> c.depthsel[i] + 1]
+      asPts(l) == [i \in 1..Len(l) |-> <<l[i][1], l[i][2]>>]
+  IN IF c.lattice = 0 THEN <<"fail", "coordinates-not-on-lattice", 0>>
+     ELSE IF c.onother > 0 THEN <<"fail", "landscape-drawn-on-an-axes-that-was-not-passed", 0>>
+     ELSE IF Len(c.obslines) # Len(sel) THEN <<"fail", "not-one-line-per-plotted-depth", Len(c.obslines)>>
+     ELSE IF \E i \in 1..Len(sel) : asPts(c.obslines[i]) # asPts(c.content[sel[i]]) THEN <<"fail", "line-differs-from-landscape-function", 0>>
+     ELSE IF c.stitle # c.title \/ c.xlabel # c.wantx \/ c.ylabel # c.wanty THEN <<"fail", "title-or-labels", 0>>
+     ELSE <<"ok", "", 0>>
+Verdict(c) == IF c.kind = "diagrams" THEN DiagramsVerdict(c) ELSE IF c.kind = "matching" THEN MatchingVerdict(c) ELSE LandscapeVerdict(c)
 TInit == k = 1
 TNext == /\ k <= Len(Cases)
          /\ PrintT(<<"V", k>> \o Verdict(Cases[k]))
